@@ -15,7 +15,10 @@
 (***************************************************************************)
 EXTENDS Integers, Sequences, FiniteSets, TLC
 
-CONSTANTS D, W, PartSize, FaultMaxAge, FaultCutoff, MinLife, MaxLife, PostedPartsMax
+CONSTANTS D, W, PartSize, FaultMaxAge, FaultCutoff, MinLife, MaxLife, AddrSectorsMax, AddrPartsMax
+\* one message may address at most AddrPartsMax partitions and AddrSectorsMax sectors; a Window PoSt, which loads whole
+\* partitions, may therefore name at most this many of them
+PostedPartsMax == IF AddrSectorsMax \div PartSize < AddrPartsMax THEN AddrSectorsMax \div PartSize ELSE AddrPartsMax
 
 VARIABLES SM, epoch, last
 vars == <<SM, epoch, last>>
@@ -115,8 +118,14 @@ PoSt(sm, c, d, parts, proofOK, e) ==
 
 -----------------------------------------------------------------------------
 \* DeclareFaults / DeclareFaultsRecovered / TerminateSectors: decls = Seq of [d, p, s : SUBSET n]
-DeclOK(sm, decls) == \A i \in 1..Len(decls) : decls[i].d < D /\ decls[i].p < NParts(sm, decls[i].d)
+DeclParts(decls) == {<<decls[i].d, decls[i].p>> : i \in 1..Len(decls)}
+DeclAt(decls, dp) == UNION {decls[i].s : i \in {j \in 1..Len(decls) : <<decls[j].d, decls[j].p>> = dp}}
+RECURSIVE SumCards(_, _)
+SumCards(decls, dps) == IF dps = {} THEN 0 ELSE LET dp == CHOOSE x \in dps : TRUE IN Cardinality(DeclAt(decls, dp)) + SumCards(decls, dps \ {dp})
+DeclOK(sm, decls) == /\ \A i \in 1..Len(decls) : decls[i].d < D /\ decls[i].p < NParts(sm, decls[i].d)
                                                /\ decls[i].s \subseteq InPart(sm, decls[i].d, decls[i].p)
+                     /\ Cardinality(DeclParts(decls)) <= AddrPartsMax
+                     /\ SumCards(decls, DeclParts(decls)) <= AddrSectorsMax
 
 RECURSIVE FaultFold(_, _, _, _)
 FaultFold(sm, decls, i, e) ==
